@@ -197,6 +197,12 @@ def run(ctx):
         if arm is None:
             ctx.violation(R2, f"{ci.key}:writer-arm", f"gate class {ci.name} has no to_dict.register arm: serialising it raises NotImplementedError", where)
             continue
+        built_somewhere = any(isinstance(n, ast.Call) and isinstance(n.func, (ast.Name, ast.Attribute)) and (lambda r: r is not None and r[0] == "class" and r[1].name == ci.name)(repo.resolve_dotted(special.module, n.func)) for n in body_walk(special.node))
+        if ci.name not in by_class and built_somewhere:
+            # the class is constructed, but not in an arm of a recognised if/elif chain over the stored name: which stored names lead to it
+            # cannot be read off -- the construct is lost, which is not a decided violation
+            ctx.undecided(R2, f"{ci.key}:reader-branch", f"_special_gate_from_dict constructs {ci.name}, but not in an arm of an if/elif chain over the stored name", special)
+            continue
         if ci.name not in by_class:
             ctx.violation(R2, f"{ci.key}:reader-branch", f"no branch of _special_gate_from_dict constructs {ci.name}: a serialised {ci.name} cannot be read back as such", where)
             continue
@@ -291,7 +297,12 @@ def run(ctx):
             last_else = cur.orelse
             break
     ok_else = bool(last_else) and isinstance(last_else[0], ast.Raise) and "KeyError" in norm(last_else[0])
-    ctx.check(ok_else, R4, f"{special.key}:fallthrough", "unknown wrapper name raises KeyError (custom reader is tried next)", "a name that is no wrapper does not fall through to the custom-gate reader", special)
+    raises_key_error = any(isinstance(n, ast.Raise) and "KeyError" in norm(n) for n in body_walk(special.node))
+    if not ok_else and raises_key_error:
+        # KeyError is raised, but not in the final else of the recognised chain: for which names cannot be read off here
+        ctx.undecided(R4, f"{special.key}:fallthrough", "KeyError is raised somewhere other than the final else of an if/elif chain over the stored name", special)
+    else:
+      ctx.check(ok_else, R4, f"{special.key}:fallthrough", "unknown wrapper name raises KeyError (custom reader is tried next)", "a name that is no wrapper does not fall through to the custom-gate reader", special)
     # MatrixFactoryGate
     mfg = [c for c in classes if c.name == "MatrixFactoryGate"]
     if not mfg or "MatrixFactoryGate" not in arms:
